@@ -506,9 +506,10 @@ pub fn run(args: &[String]) -> Value {
                 // a constant twin may report at checking time the very error the specification predicts for the run
                 if twin && is_fold_class && exp_status == "error" && exp["v"].as_str() == Some(r.parse.as_str()) {
                     *counts.entry("const-twin-error-reported-early".into()).or_insert(0) += 1;
-                } else if twin && fold_error {
-                    // generated programs: a failing constant sub-expression in code that is never run is still folded
-                    *counts.entry("rejected-constant-folding-error".into()).or_insert(0) += 1;
+                } else if twin && is_fold_class {
+                    // C04's permitted difference: an operation on constant operands that fails whenever it is evaluated
+                    // may be reported when the program is checked, even where the hidden twin never reaches it
+                    *counts.entry("const-twin-folding-error-permitted".into()).or_insert(0) += 1;
                 } else if twin {
                     bad("consttwin", format!("the constant twin is refused ({}: {}) while the specification predicts {} for the program", r.parse, r.detail, exp_status), &mut mm);
                 } else if fold_error {
